@@ -26,6 +26,10 @@ pub enum Starve {
     Stall(String),
     /// the script is over and the client just keeps the connection open
     Idle,
+    /// orderly close of both directions: reads see end-of-stream, later writes fail with the kind
+    Close(io::ErrorKind),
+    /// the client vanishes abruptly: reads and later writes fail with the kind
+    Abort(io::ErrorKind),
 }
 
 pub struct StarveView<'a> {
@@ -161,6 +165,22 @@ impl MemConn {
                     Starve::Idle => {
                         st.idle_end = true;
                         st.in_err = Some(io::ErrorKind::Other);
+                        continue;
+                    }
+                    Starve::Close(k) => {
+                        st.in_eof = true;
+                        let len = st.out.len();
+                        if st.write_fault.is_none() {
+                            st.write_fault = Some((len, k));
+                        }
+                        continue;
+                    }
+                    Starve::Abort(k) => {
+                        st.in_err = Some(k);
+                        let len = st.out.len();
+                        if st.write_fault.is_none() {
+                            st.write_fault = Some((len, k));
+                        }
                         continue;
                     }
                 }
